@@ -2,7 +2,9 @@
 
 D1 ordering rules (sorted keys, declaration order, product order), D2 rejection guards dominate
 what they protect, D3 the cap is tested before anything of product size is materialised,
-D4 error classes.
+D4 error classes.  Round 4: the configuration parser and the run-space dataclasses agree on what a missing key means
+(C08-D1-declared-defaults, an interface rule over every function that builds the dataclasses), and source content
+reaches a word-accepting converter (float, ...) only behind a test on its spelling (C08-D1-source-cells).
 
 Everything is decided on the *normal form* of the three anchored functions (private helpers inlined,
 module constants substituted, if/else merged, accumulate loops turned into comprehensions, pure
@@ -455,6 +457,580 @@ def _source_columns(repo: Repo, R: Report) -> None:
         R.check(ok, r_src, RS, LSF, f"cells stored by `{norm(node)[:70]}`", what, getattr(node, "lineno", lsf.lineno))
 
 
+# --------------------------------------------------------------------------------------------------------------
+# interface: the configuration parser and the run-space dataclasses agree on what a missing key means
+# --------------------------------------------------------------------------------------------------------------
+_INPUT, _UNKNOWN, _RAISES = "<input>", "<unknown>", "<raises>"
+_NODEFAULT = object()
+_PURE_BUILTINS = {"str": str, "int": int, "float": float, "bool": bool, "list": list, "dict": dict, "tuple": tuple, "set": set, "frozenset": frozenset, "len": len, "sorted": sorted}
+_PURE_METHODS = ("lower", "upper", "strip", "lstrip", "rstrip", "casefold", "title", "items", "keys", "values", "copy")
+_TYPE_NAMES = {"str": str, "int": int, "float": float, "bool": bool, "list": list, "dict": dict, "tuple": tuple, "set": set}
+
+
+def _same_value(a: object, b: object) -> bool:
+    return type(a) is type(b) and a == b
+
+
+def _is_dataclass(cls: ast.ClassDef) -> bool:
+    return any(_last(dotted_name(d.func if isinstance(d, ast.Call) else d)) == "dataclass" for d in cls.decorator_list)
+
+
+def _field_default(v: Optional[ast.AST]) -> object:
+    """Declared default of a dataclass field as ('c', python value), _NODEFAULT (required) or _UNKNOWN."""
+    if v is None:
+        return _NODEFAULT
+    if isinstance(v, ast.Call) and _last(dotted_name(v.func)) == "field":
+        d, f = kwarg(v, "default"), kwarg(v, "default_factory")
+        if d is not None:
+            return _field_default(d)
+        if f is not None:
+            if isinstance(f, ast.Name) and f.id in ("dict", "list", "set", "tuple"):
+                return ("c", _PURE_BUILTINS[f.id]())
+            if isinstance(f, ast.Lambda):
+                return _field_default(f.body)
+            return _UNKNOWN
+        return _NODEFAULT
+    try:
+        return ("c", ast.literal_eval(v))
+    except (ValueError, TypeError, SyntaxError, MemoryError, RecursionError):
+        return _UNKNOWN
+
+
+def _spec_classes(repo: Repo) -> Dict[int, Tuple[object, ast.ClassDef, Dict[str, object], List[str]]]:
+    """The dataclasses a run-space specification is made of, found from the annotation of the first parameter of
+    the expansion entry point and closed over the field annotations: id(class) -> (module, class, {field: default},
+    field order)."""
+    mod = repo.module(RS)
+    ers = repo.func(RS, ERS)
+    if not ers.args.args or ers.args.args[0].annotation is None:
+        raise AnalysisError("expand_run_space: the specification parameter carries no annotation (its class cannot be found)")
+
+    def classes_named(m, ann: ast.AST) -> List[Tuple[object, ast.ClassDef]]:
+        if isinstance(ann, ast.Constant) and isinstance(ann.value, str):
+            try:
+                ann = ast.parse(ann.value, mode="eval").body
+            except SyntaxError:
+                return []
+        out = []
+        for x in ast.walk(ann):
+            if isinstance(x, ast.Constant) and isinstance(x.value, str) and x is not ann:
+                out.extend(classes_named(m, x))
+            if isinstance(x, (ast.Name, ast.Attribute)):
+                local = m.defs.get(dotted_name(x) or "")
+                r = (m, local) if isinstance(local, ast.ClassDef) else repo.resolve_name(m, x, m.tree)
+                if r is not None and isinstance(r[1], ast.ClassDef) and _is_dataclass(r[1]):
+                    out.append(r)
+        return out
+
+    found_cls: Dict[int, Tuple[object, ast.ClassDef, Dict[str, object], List[str]]] = {}
+    todo = classes_named(mod, ers.args.args[0].annotation)
+    while todo:
+        m, c = todo.pop()
+        if id(c) in found_cls:
+            continue
+        repo.consulted.add(m.rel)
+        fields: Dict[str, object] = {}
+        order: List[str] = []
+        for st in c.body:
+            if isinstance(st, ast.AnnAssign) and isinstance(st.target, ast.Name):
+                fields[st.target.id] = _field_default(st.value)
+                order.append(st.target.id)
+                todo.extend(classes_named(m, st.annotation))
+        found_cls[id(c)] = (m, c, fields, order)
+    if not found_cls:
+        raise AnalysisError("expand_run_space: the class of the specification parameter was not found in the package")
+    return found_cls
+
+
+def _declared_defaults(repo: Repo, R: Report) -> None:
+    """Every place that builds a run-space dataclass (RunSpaceV1Config / RunBlock / RunSource - found by role, see
+    _spec_classes) from a key of a mapping gives the field, when that key is missing, the default the dataclass
+    declares.  The expansion is documented on the dataclasses (`RunSource.mode` defaults to rows-as-runs, `combine` to
+    combinatorial, `max_runs` to 1000): a parser that falls back to anything else - another constant, or a value
+    taken from somewhere else in the file - makes the same declaration expand differently through the YAML path
+    than the documented list."""
+    r_def = R.rule("C08-D1-declared-defaults", "where a run-space dataclass field is filled from a key of a configuration mapping, the value used when the key is missing is the default the dataclass declares (the parser and the schema agree on what an omitted mode / combine / max_runs / select / rename means; it does not depend on other parts of the file)", 3)
+    classes = _spec_classes(repo)
+    names = {c.name for _m, c, _f, _o in classes.values()}
+    for mod in list(repo.modules.values()):
+        if not any(nm in mod.source for nm in names):
+            continue
+        for qn, node in list(mod.defs.items()):
+            if not isinstance(node, FuncNode):
+                continue
+            raw_calls = [c for c in walk_no_nested(node) if isinstance(c, ast.Call) and _last(dotted_name(c.func)) in names]
+            if not raw_calls:
+                continue
+            repo.consulted.add(mod.rel)
+            try:
+                fn = nfunc(repo, mod.rel, qn, copyprop="all")
+            except AnalysisError:
+                raise
+            except Exception:  # a shape the normaliser does not handle (nested class, ...): analyse the function as written
+                fn = node
+            _defaults_in(repo, R, r_def, mod, fn, classes)
+
+
+def _defaults_in(repo: Repo, R: Report, r_def, mod, fn: ast.AST, classes) -> None:
+    FP = Flow(fn)
+    comp_bound = {t.id for c in ast.walk(fn) if isinstance(c, COMPS) for gen in c.generators for t in ast.walk(gen.target) if isinstance(t, ast.Name)}
+
+    def class_of(call: ast.AST):
+        if not isinstance(call, ast.Call):
+            return None
+        r = repo.resolve_name(mod, call.func, mod.tree) if isinstance(call.func, (ast.Name, ast.Attribute)) else None
+        return classes.get(id(r[1])) if r is not None else None
+
+    def keyed_read(e: ast.AST) -> Optional[Tuple[str, str, Optional[ast.AST], str]]:
+        if isinstance(e, ast.Call) and isinstance(e.func, ast.Attribute) and e.func.attr in ("get", "pop") and not e.keywords and 1 <= len(e.args) <= 2 and isinstance(e.args[0], ast.Constant) and isinstance(e.args[0].value, str):
+            return _u(e.func.value), e.args[0].value, (e.args[1] if len(e.args) == 2 else None), "get"
+        if isinstance(e, ast.Subscript) and isinstance(e.ctx, ast.Load) and isinstance(e.slice, ast.Constant) and isinstance(e.slice.value, str):
+            return _u(e.value), e.slice.value, None, "item"
+        return None
+
+    def member_test(e: ast.AST) -> Optional[Tuple[str, str, bool]]:
+        if isinstance(e, ast.Compare) and len(e.ops) == 1 and isinstance(e.ops[0], (ast.In, ast.NotIn)) and isinstance(e.left, ast.Constant) and isinstance(e.left.value, str) and not isinstance(e.comparators[0], (ast.Constant, ast.Tuple, ast.List, ast.Set, ast.Dict)):
+            return _u(strip_keyset(e.comparators[0])), e.left.value, isinstance(e.ops[0], ast.In)
+        return None
+
+    def live_values(e: ast.Name, at: ast.AST, absent, depth: int) -> List[Tuple[ast.AST, ast.AST]]:
+        """Reaching values of a local, minus those overwritten on every path on which the key is missing
+        (`x = m.get(k)` followed by `if x is None: x = D`)."""
+        vals = [(v, st) for v, st in FP.values(e, at, depth=1) if v is not e]
+        if len(vals) < 2:
+            return vals
+        keep = []
+        for v, st in vals:
+            killed = False
+            for v2, st2 in vals:
+                if st2 is st:
+                    continue
+                for a in ancestors(st2):
+                    if a is fn:
+                        break
+                    if isinstance(a, ast.If) and not any(x is st for x in ast.walk(a)) and getattr(a, "lineno", 0) > getattr(st, "lineno", 0):
+                        in_body = any(x is st2 for b in a.body for x in ast.walk(b))
+                        # the value seen by the test is the one assigned at *st*
+                        t = ev(a.test, a, absent, depth + 1, {e.id: (v, st)})
+                        if isinstance(t, tuple) and bool(t[1]) == in_body and any(b is st2 for b in (a.body if in_body else a.orelse)):
+                            killed = True
+            if not killed:
+                keep.append((v, st))
+        return keep or vals
+
+    def join(rs: List[object]) -> object:
+        rs = [r for r in rs if r is not _RAISES]
+        if not rs:
+            return _RAISES
+        if any(r is _UNKNOWN for r in rs):
+            return _UNKNOWN
+        if any(r is _INPUT for r in rs):
+            return _INPUT
+        first = rs[0]
+        return first if all(_same_value(first[1], r[1]) for r in rs) else _UNKNOWN
+
+    def ev(e: ast.AST, at: ast.AST, absent: Tuple[str, str], depth: int = 0, env: Optional[Dict[str, Tuple[ast.AST, ast.AST]]] = None) -> object:
+        """Value of *e* (evaluated in statement *at*) when key absent[1] is missing from the mapping absent[0]:
+        ('c', python value) | _INPUT (depends on other input) | _RAISES | _UNKNOWN."""
+        if depth > 14:
+            return _UNKNOWN
+        if isinstance(e, ast.Constant):
+            return ("c", e.value)
+        if isinstance(e, ast.Name):
+            if env and e.id in env:
+                v, st = env[e.id]
+                return ev(v, st, absent, depth + 1)
+            if e.id in comp_bound:
+                return _INPUT
+            vals = live_values(e, at, absent, depth)
+            if not vals:
+                c = class_of(ast.Call(func=e, args=[], keywords=[]))
+                return _UNKNOWN if c is not None or e.id in _PURE_BUILTINS else _INPUT
+            return join([ev(v, st, absent, depth + 1) for v, st in vals])
+        kr = keyed_read(e)
+        if kr is not None:
+            mtext, key, default, kind = kr
+            if (mtext, key) == absent:
+                if kind == "item":
+                    return _RAISES
+                return ("c", None) if default is None else ev(default, at, absent, depth + 1, env)
+            return _INPUT
+        if isinstance(e, ast.Call):
+            nm = dotted_name(e.func) or ""
+            if _last(nm) == "cast" and len(e.args) == 2 and not e.keywords:
+                return ev(e.args[1], at, absent, depth + 1, env)
+            if e.keywords or any(isinstance(a, ast.Starred) for a in e.args):
+                return _UNKNOWN
+            args = [ev(a, at, absent, depth + 1, env) for a in e.args]
+            recv = ev(e.func.value, at, absent, depth + 1, env) if isinstance(e.func, ast.Attribute) and e.func.attr in _PURE_METHODS else None
+            parts = args + ([recv] if recv is not None else [])
+            if any(p is _RAISES for p in parts):
+                return _RAISES
+            if nm == "isinstance" and len(args) == 2 and isinstance(args[0], tuple):
+                tnames = [x for x in (e.args[1].elts if isinstance(e.args[1], ast.Tuple) else [e.args[1]])]
+                types = [_TYPE_NAMES.get(dotted_name(t) or "") for t in tnames]
+                if all(t is not None for t in types):
+                    return ("c", isinstance(args[0][1], tuple(types)))
+                if _last(dotted_name(tnames[0]) or "") in ("Mapping", "MutableMapping") and len(tnames) == 1:
+                    return ("c", isinstance(args[0][1], dict))
+                return _UNKNOWN
+            if any(p is _UNKNOWN for p in parts):
+                return _UNKNOWN
+            if any(p is _INPUT for p in parts):
+                return _INPUT
+            try:
+                if recv is not None:
+                    out = getattr(recv[1], e.func.attr)(*[a[1] for a in args])
+                    return ("c", list(out) if e.func.attr in ("items", "keys", "values") else out)
+                if isinstance(e.func, ast.Name) and e.func.id in _PURE_BUILTINS and FP.values(e.func, at)[0][0] is e.func:
+                    return ("c", _PURE_BUILTINS[e.func.id](*[a[1] for a in args]))
+            except Exception:
+                return _RAISES
+            return _UNKNOWN
+        if isinstance(e, ast.Subscript):
+            inner = ev(e.value, at, absent, depth + 1, env)
+            return inner if inner in (_INPUT, _RAISES) else _UNKNOWN
+        if isinstance(e, ast.Attribute):
+            r = repo.resolve_name(mod, e.value, mod.tree) if isinstance(e.value, (ast.Name, ast.Attribute)) else None
+            if r is not None and id(r[1]) in classes:
+                d = classes[id(r[1])][2].get(e.attr, _UNKNOWN)
+                return d if isinstance(d, tuple) else _UNKNOWN
+            inner = ev(e.value, at, absent, depth + 1, env)
+            return inner if inner in (_INPUT, _RAISES) else _UNKNOWN
+        if isinstance(e, ast.BoolOp):
+            seen_input = False
+            last: object = _UNKNOWN
+            for v in e.values:
+                r = ev(v, at, absent, depth + 1, env)
+                if r is _UNKNOWN or r is _RAISES:
+                    return r
+                if r is _INPUT:
+                    seen_input = True
+                    continue
+                last = r
+                if bool(r[1]) == isinstance(e.op, ast.Or):
+                    return _INPUT if seen_input else r
+            return _INPUT if seen_input else last
+        if isinstance(e, ast.UnaryOp) and isinstance(e.op, ast.Not):
+            r = ev(e.operand, at, absent, depth + 1, env)
+            return ("c", not r[1]) if isinstance(r, tuple) else r
+        if isinstance(e, ast.BinOp) and isinstance(e.op, (ast.Add, ast.Sub, ast.Mult, ast.Pow, ast.FloorDiv)):
+            l, r = ev(e.left, at, absent, depth + 1, env), ev(e.right, at, absent, depth + 1, env)
+            for p in (l, r):
+                if not isinstance(p, tuple):
+                    return _UNKNOWN if _UNKNOWN in (l, r) else p
+            if not all(isinstance(p[1], (int, float)) and not isinstance(p[1], bool) for p in (l, r)) or (isinstance(e.op, ast.Pow) and not (isinstance(r[1], int) and 0 <= r[1] <= 64 and abs(l[1]) <= 1024)):
+                return _UNKNOWN
+            try:
+                ops = {ast.Add: lambda a, b: a + b, ast.Sub: lambda a, b: a - b, ast.Mult: lambda a, b: a * b, ast.Pow: lambda a, b: a ** b, ast.FloorDiv: lambda a, b: a // b}
+                return ("c", ops[type(e.op)](l[1], r[1]))
+            except Exception:
+                return _RAISES
+        if isinstance(e, ast.Compare) and len(e.ops) == 1:
+            mt = member_test(e)
+            if mt is not None:
+                return ("c", not mt[2]) if (mt[0], mt[1]) == absent else _INPUT
+            l, r = ev(e.left, at, absent, depth + 1, env), ev(e.comparators[0], at, absent, depth + 1, env)
+            for p in (l, r):
+                if not isinstance(p, tuple):
+                    return p if p is not _INPUT or _UNKNOWN not in (l, r) else _UNKNOWN
+            op = e.ops[0]
+            try:
+                table = {ast.Is: lambda a, b: a is b, ast.IsNot: lambda a, b: a is not b, ast.Eq: lambda a, b: a == b, ast.NotEq: lambda a, b: a != b,
+                         ast.In: lambda a, b: a in b, ast.NotIn: lambda a, b: a not in b}
+                f = table.get(type(op))
+                return ("c", bool(f(l[1], r[1]))) if f else _UNKNOWN
+            except Exception:
+                return _RAISES
+        if isinstance(e, ast.IfExp):
+            t = ev(e.test, at, absent, depth + 1, env)
+            if isinstance(t, tuple):
+                return ev(e.body if t[1] else e.orelse, at, absent, depth + 1, env)
+            if t is _INPUT:
+                j = join([ev(e.body, at, absent, depth + 1, env), ev(e.orelse, at, absent, depth + 1, env)])
+                return j if isinstance(j, tuple) or j is _RAISES else _INPUT if j is _INPUT else _UNKNOWN
+            return t
+        if isinstance(e, (ast.List, ast.Tuple, ast.Set)):
+            if any(isinstance(x, ast.Starred) for x in e.elts):
+                return _UNKNOWN
+            parts = [ev(x, at, absent, depth + 1, env) for x in e.elts]
+            if all(isinstance(p, tuple) for p in parts):
+                try:
+                    return ("c", {ast.List: list, ast.Tuple: tuple, ast.Set: set}[type(e)](p[1] for p in parts))
+                except TypeError:
+                    return _UNKNOWN
+            return _INPUT if parts and all(isinstance(p, tuple) or p is _INPUT for p in parts) else _UNKNOWN
+        if isinstance(e, ast.Dict):
+            if not e.keys:
+                return ("c", {})
+            return _UNKNOWN
+        if isinstance(e, COMPS) and len(e.generators) == 1:
+            it = ev(e.generators[0].iter, at, absent, depth + 1, env)
+            if isinstance(it, tuple):
+                try:
+                    if len(it[1]) == 0:
+                        return ("c", {} if isinstance(e, ast.DictComp) else set() if isinstance(e, ast.SetComp) else [])
+                except TypeError:
+                    return _RAISES
+                return _UNKNOWN
+            return it
+        return _UNKNOWN
+
+    def primaries(e: ast.AST, at: ast.AST, depth: int = 0, seen: Optional[Set[int]] = None) -> List[Tuple[str, str, ast.AST]]:
+        """Keyed reads the value of *e* is taken from (not those inside another read's default or receiver)."""
+        seen = set() if seen is None else seen
+        if depth > 8 or id(e) in seen:
+            return []
+        seen.add(id(e))
+        if isinstance(e, ast.Name):
+            if e.id in comp_bound:
+                return []
+            vals = sorted([(v, st) for v, st in FP.values(e, at, depth=1) if v is not e], key=lambda p: getattr(p[1], "lineno", 0))
+            return [p for v, st in vals for p in primaries(v, st, depth + 1, seen)]
+        kr = keyed_read(e)
+        if kr is not None:
+            return [(kr[0], kr[1], e)]
+        mt = member_test(e)
+        if mt is not None:
+            return [(mt[0], mt[1], e)]
+        if isinstance(e, ast.Call) and class_of(e) is not None:
+            return [("<object>", "<built>", e)]
+        out = []
+        for ch in ast.iter_child_nodes(e):
+            if isinstance(ch, (ast.expr, ast.comprehension, ast.keyword)):
+                out.extend(primaries(ch, at, depth, seen))
+        return out
+
+    sites: List[Tuple[ast.ClassDef, str, object, ast.AST, ast.AST]] = []  # (class, field, declared default, value expr, statement)
+    for c in ast.walk(fn):
+        info = class_of(c) if isinstance(c, ast.Call) else None
+        if info is not None:
+            _m, cls, fields, order = info
+            st = stmt_of(c)
+            if any(isinstance(a, ast.Starred) for a in c.args) or any(k.arg is None for k in c.keywords):
+                continue
+            for i, a in enumerate(c.args[: len(order)]):
+                sites.append((cls, order[i], fields[order[i]], a, st))
+            for k in c.keywords:
+                if k.arg in fields:
+                    sites.append((cls, k.arg, fields[k.arg], k.value, st))
+        if isinstance(c, ast.Assign) and len(c.targets) == 1 and isinstance(c.targets[0], ast.Attribute) and isinstance(c.targets[0].value, ast.Name):
+            holders = [v for v, _s in FP.values(c.targets[0].value, c) if v is not c.targets[0].value]
+            infos = [class_of(v) for v in holders]
+            if holders and all(i is not None for i in infos) and len({id(i[1]) for i in infos}) == 1:
+                _m, cls, fields, _order = infos[0]
+                if c.targets[0].attr in fields:
+                    sites.append((cls, c.targets[0].attr, fields[c.targets[0].attr], c.value, c))
+    for cls, fname, declared, expr, st in sites:
+        if not isinstance(declared, tuple):
+            continue  # a required field (or a default this analysis cannot read): nothing to agree with
+        prim = primaries(expr, st)
+        if not prim or ("<object>", "<built>") in {(m, k) for m, k, _n in prim}:
+            continue  # not filled from a key of a mapping
+        # the first read in evaluation order is the key the field stands for; later reads are its fallbacks
+        absent = (prim[0][0], prim[0][1])
+        got = ev(expr, st, absent)
+        node = prim[0][2]
+        line = getattr(node, "lineno", None) or getattr(st, "lineno", fn.lineno)
+        label = f"{cls.name}.{fname} when `{absent[1]}` is missing from `{absent[0][:40]}`"
+        if got is _INPUT:
+            R.violation(r_def, mod.rel, fn.name, label, f"when the key `{absent[1]}` is omitted the field is given a value that depends on other input (`{_u(expr)[:90]}`) instead of the default `{declared[1]!r}` declared by {cls.name}.{fname}: the same declaration expands differently through this path than documented (e.g. a source without `mode` inside a combinatorial block multiplies its columns instead of contributing one run per row)", line)
+        elif isinstance(got, tuple):
+            R.check(_same_value(got[1], declared[1]), r_def, mod.rel, fn.name, label, f"when the key `{absent[1]}` is omitted the field is given `{got[1]!r}`, but {cls.name}.{fname} declares the default `{declared[1]!r}`: the parser and the schema disagree on what the omitted key means, so the same declaration does not expand to the documented list", line)
+        # _RAISES: the key is required here (a missing key is rejected); _UNKNOWN: not decided
+
+
+# --------------------------------------------------------------------------------------------------------------
+# source cells: a converter that accepts words is applied only behind a test on the spelling
+# --------------------------------------------------------------------------------------------------------------
+WORD_CONVERTERS = {"float": "inf / nan / infinity (any case, signed) and exponent forms such as 1e3", "complex": "inf / nan / 1e3 / 1j",
+                   "Decimal": "Infinity / NaN / sNaN / 1E3", "eval": "any expression", "literal_eval": "any literal"}
+
+
+def _cell_converters(repo: Repo, R: Report) -> None:
+    """Text read from a source file stays the text that was written unless it is spelled like a number: in the
+    functions that load a source (call graph of _load_and_process_source), a converter that also accepts *words*
+    (`float` takes inf, nan, infinity, 1e3; likewise complex / Decimal / literal_eval) is applied to file content only
+    on a branch where a test on the spelling has passed (a '.'/digit containment test, str.isdigit-like predicates,
+    a regular-expression match).  Unguarded, label columns such as bound=inf|sup or fill=nan|zero come back as
+    floats, nan cells make identical runs unequal, and csv disagrees with the same data in json / yaml."""
+    r_cell = R.rule("C08-D1-source-cells", "while loading a source, a converter that also accepts words (float: inf, nan, infinity, 1e3; complex, Decimal, literal_eval) is applied to file content only behind a test on the spelling ('.'/digit containment, isdigit-like predicate, regular-expression match): a cell that is not spelled like a number is carried into the runs as written", 1)
+    mod = repo.module(RS)
+    roots = [(mod, repo.func(RS, LPS))]
+    closure = repo.call_graph_closure(roots)
+    done: Set[Tuple] = set()
+    for _k, (m, node, _path) in sorted(closure.items(), key=lambda kv: (kv[1][0].rel, getattr(kv[1][1], "lineno", 0))):
+        if not isinstance(node, FuncNode):
+            continue
+        qn = next((q for q, n in m.defs.items() if n is node), None)
+        fn = node
+        if qn is not None and "." not in qn:
+            try:
+                fn = nfunc(repo, m.rel, qn, keep=KEEP, copyprop="temps")
+            except AnalysisError:
+                raise
+            except Exception:
+                fn = node
+        _converters_in(R, r_cell, m.rel, fn, done)
+
+
+def _converters_in(R: Report, r_cell, rel: str, fn: ast.AST, done: Set[Tuple]) -> None:
+    FX = Flow(fn)
+    a = fn.args
+    params = {x.arg for x in a.posonlyargs + a.args + a.kwonlyargs}
+    local_names = params | {x.id for x in ast.walk(fn) if isinstance(x, ast.Name) and isinstance(x.ctx, ast.Store)}
+
+    def converters_named(f: ast.AST, at: ast.AST, depth: int = 0) -> Set[str]:
+        """Word-accepting converters the callee expression *f* can stand for."""
+        if depth > 3:
+            return set()
+        if isinstance(f, ast.Attribute):
+            return {f.attr} & set(WORD_CONVERTERS) if dotted_name(f) else set()
+        if isinstance(f, (ast.Tuple, ast.List, ast.Set)):
+            return set().union(*[converters_named(x, at, depth + 1) for x in f.elts]) if f.elts else set()
+        if isinstance(f, ast.IfExp):
+            return converters_named(f.body, at, depth + 1) | converters_named(f.orelse, at, depth + 1)
+        if not isinstance(f, ast.Name):
+            return set()
+        if f.id not in local_names:
+            return {f.id} & set(WORD_CONVERTERS)
+        for a2 in ancestors(f):
+            if isinstance(a2, COMPS):
+                for gen in a2.generators:
+                    if any(isinstance(t, ast.Name) and t.id == f.id for t in ast.walk(gen.target)):
+                        return converters_named(gen.iter, at, depth + 1) if isinstance(gen.target, ast.Name) else set()
+        out: Set[str] = set()
+        for d in FX.defs(f.id, at):
+            if d[0] == "val":
+                out |= converters_named(d[1], d[2], depth + 1)
+            elif d[0] == "iter" and isinstance(d[1].target, ast.Name):
+                for v, st in FX.values(d[1].iter, d[1]):
+                    out |= converters_named(v, st, depth + 1)
+        return out
+
+    # (call, converters, converted expression, selecting test of a {True: f, False: g}[test] dispatch or None)
+    sites: List[Tuple[ast.Call, Set[str], ast.AST, Optional[Tuple[ast.AST, bool]]]] = []
+    for c in ast.walk(fn):
+        if not isinstance(c, ast.Call) or not c.args:
+            continue
+        st = stmt_of(c)
+        convs = converters_named(c.func, st)
+        if convs:
+            sites.append((c, convs, c.args[0], None))
+        elif isinstance(c.func, ast.Name) and c.func.id == "map" and c.func.id not in local_names and len(c.args) >= 2:
+            convs = converters_named(c.args[0], st)
+            if convs:
+                sites.append((c, convs, c.args[1], None))
+        elif isinstance(c.func, ast.Subscript):
+            tables = [v for v, _s in FX.values(c.func.value, st)] if isinstance(c.func.value, ast.Name) else [c.func.value]
+            for tb in tables:
+                if isinstance(tb, ast.Dict) and tb.keys and all(isinstance(k, ast.Constant) and isinstance(k.value, bool) for k in tb.keys):
+                    for k, v in zip(tb.keys, tb.values):
+                        convs = converters_named(v, st)
+                        if convs:
+                            sites.append((c, convs, c.args[0], (c.func.slice, bool(k.value))))
+                elif isinstance(tb, (ast.Dict, ast.Tuple, ast.List)):
+                    convs = set().union(*[converters_named(v, st) for v in (tb.values if isinstance(tb, ast.Dict) else tb.elts)]) if (tb.values if isinstance(tb, ast.Dict) else tb.elts) else set()
+                    if convs:
+                        sites.append((c, convs, c.args[0], None))
+    if not sites:
+        return
+
+    def roots_of(e: ast.AST, at: ast.AST) -> Set[str]:
+        """Texts the converted value goes by: the expression itself and the locals / expressions it was copied from."""
+        out = {_u(e)}
+        if isinstance(e, ast.Name):
+            out |= {_u(v) for v, _s in FX.values(e, at)}
+        out |= {n for n in names_in(e) if n in local_names}
+        return out
+
+    def spelling_atom(texts: Set[str]):
+        def about(x: ast.AST) -> bool:
+            return bool(names_in(x) & {t for t in texts if t.isidentifier()}) or _u(x) in texts
+
+        def atom(e: ast.AST) -> Optional[bool]:
+            if isinstance(e, ast.Compare) and len(e.ops) == 1:
+                l, op, r = e.left, e.ops[0], e.comparators[0]
+                if isinstance(op, (ast.In, ast.NotIn)) and isinstance(l, ast.Constant) and isinstance(l.value, str) and l.value and set(l.value) <= set("0123456789.") and about(r):
+                    return isinstance(op, ast.In)
+                if isinstance(op, (ast.Is, ast.IsNot)) and isinstance(r, ast.Constant) and r.value is None:
+                    inner = atom(l)
+                    if inner is True and isinstance(l, ast.Call) and "match" in (call_attr(l) or ""):
+                        return isinstance(op, ast.IsNot)
+                return None
+            if isinstance(e, ast.Call) and isinstance(e.func, ast.Attribute):
+                if e.func.attr in ("isdigit", "isdecimal", "isnumeric") and not e.args and about(e.func.value):
+                    return True
+                if e.func.attr in ("match", "fullmatch") and e.args and any(about(x) for x in e.args):
+                    return True
+            return None
+        return atom
+
+    def value_tests(texts: Set[str], site_stmt: ast.AST) -> List[ast.AST]:
+        """Tests on the converted value that this analysis cannot classify (neither a spelling test nor one of the
+        tests known not to look at the spelling: isinstance, None, emptiness, membership in a set of words)."""
+        ids = {t for t in texts if t.isidentifier()}
+        out = []
+        for n in FX.g.nodes:
+            if n.kind == "if" and n.part is not None and names_in(n.part) & ids:
+                if FX.edges(n.part, spelling_atom(texts)):
+                    continue
+                plain = True
+                for x in ast.walk(n.part):
+                    if isinstance(x, ast.Call) and not (call_name(x) in ("isinstance", "len", "str", "bool") or call_attr(x) in ("strip", "lower", "upper", "casefold", "lstrip", "rstrip")):
+                        plain = False
+                    if isinstance(x, ast.Compare) and not all(isinstance(c2, (ast.Constant, ast.Set, ast.Tuple, ast.List, ast.Name)) for c2 in x.comparators):
+                        plain = False
+                if not plain:
+                    out.append(n.part)
+        return out
+
+    for c, convs, arg, selected_by in sites:
+        key = (rel, getattr(c, "lineno", 0), getattr(c, "col_offset", 0), "/".join(sorted(convs)))
+        if key in done:
+            continue
+        done.add(key)
+        st = stmt_of(c)
+        texts = roots_of(arg, st)
+        if not any(t.isidentifier() and t in local_names for t in texts):
+            continue  # a constant / module-level value, not file content
+        atom = spelling_atom(texts)
+        guarded = selected_by is not None and ("T" if selected_by[1] else "F") in FX.edges(selected_by[0], atom)
+        child: ast.AST = c
+        for a2 in ancestors(c):
+            if a2 is st:
+                break
+            if isinstance(a2, ast.IfExp) and child is not a2.test:
+                need = "T" if child is a2.body else "F"
+                if need in FX.edges(a2.test, atom):
+                    guarded = True
+            if isinstance(a2, ast.BoolOp) and isinstance(a2.op, ast.And):
+                idx = next((i for i, v in enumerate(a2.values) if v is child), 0)
+                if any("T" in FX.edges(v, atom) for v in a2.values[:idx]):
+                    guarded = True
+            if isinstance(a2, COMPS):
+                for gen in a2.generators:
+                    if any("T" in FX.edges(t, atom) for t in gen.ifs):
+                        guarded = True
+            child = a2
+        path: List[str] = []
+        if not guarded:
+            edges = []
+            for n in FX.g.nodes:
+                if n.kind == "if" and n.part is not None:
+                    edges.extend((n.id, e2) for e2 in FX.edges(n.part, atom))
+            if edges:
+                guarded, path = FX.dominated([FX.nid(st)], edges)
+        shown = "/".join(sorted(convs))
+        label = f"{shown}() applied to source content: `{norm(c)[:60]}`"
+        if not guarded:
+            unknown = value_tests(texts, st)
+            if unknown:
+                raise AnalysisError(f"{fn.name}: `{norm(c)[:60]}` converts source content under a test this analysis cannot classify (`{_u(unknown[0])[:60]}`)")
+        accepts = "; ".join(f"{k}() accepts {WORD_CONVERTERS[k]}" for k in sorted(convs))
+        R.check(guarded, r_cell, rel, fn.name, label, f"file content reaches `{shown}()` without a test on its spelling ({accepts}): cells that are words or identifiers (bound = inf|sup, fill = nan|zero, batch = 1e3) are loaded as inf / nan / 1000.0 instead of the text written in the file, so the runs carry values that were not declared (nan also makes identical runs compare unequal) and csv disagrees with the same data in json / yaml", getattr(c, "lineno", fn.lineno), path or None)
+
+
 def run(repo: Repo, R: Report) -> None:
     mod = repo.module(RS)
     opts = dict(keep=KEEP, copyprop="all", loops=True)
@@ -471,7 +1047,7 @@ def run(repo: Repo, R: Report) -> None:
         "itertools.product enumerates with the rightmost iterable varying fastest (stdlib contract)",
         "csv/json/yaml parsers return the file's rows in file order",
     )
-    R.undecided("content of parsed source files and scalar coercion values; memory actually used (only *where* product-sized structures are built is decided)")
+    R.undecided("content of parsed source files and the exact values scalar coercion produces (only *which* converters file content can reach, and behind which spelling test, is decided); memory actually used (only *where* product-sized structures are built is decided)")
 
     def is_product(c: ast.AST) -> bool:
         return isinstance(c, ast.Call) and call_name(c) in ("itertools.product", "product")
@@ -1487,6 +2063,8 @@ def run(repo: Repo, R: Report) -> None:
 
     # ------------------------------------------------------------------ D1/D2 source loading: cells keep their own key
     _source_columns(repo, R)
+    _cell_converters(repo, R)
+    _declared_defaults(repo, R)
 
     # ------------------------------------------------------------------ D4 error classes
     r_err = R.rule("C08-D4-error-classes", "expansion raises only the documented configuration error and max-runs error", 5)
